@@ -1825,7 +1825,13 @@ func (s *SelectStatement) String() string {
 	case NoFill:
 		_, _ = buf.WriteString(" fill(none)")
 	case NumberFill:
-		_, _ = buf.WriteString(fmt.Sprintf(" fill(%v)", s.FillValue))
+		if v, ok := s.FillValue.(float64); ok {
+			// Keep a float a float (3.0, not 3) and never use exponent
+			// notation, which the parser does not accept.
+			_, _ = buf.WriteString(" fill(" + (&NumberLiteral{Val: v}).String() + ")")
+		} else {
+			_, _ = buf.WriteString(fmt.Sprintf(" fill(%v)", s.FillValue))
+		}
 	case LinearFill:
 		_, _ = buf.WriteString(" fill(linear)")
 	case PreviousFill:
